@@ -604,6 +604,24 @@ def s9_boundary_episodes(r, what):
                 st = [r.choice([[R9, S9], [R9, S9], [ANB, R9, S9], [R9, S9, SZAC(12, 3)]])]
                 eps.append(episode(v, {"t": "clean"} if r.random() < 0.6 else r.choice(tails(r)), st, r, what,
                                    src="s9span"))
+        # the same span (the 256-bit groups of two consecutive inventory entries differ by exactly S) reached with
+        # entries that do not start their group: the first one sits at offset d of its group, the next entry's
+        # first one at offset e of group +S, and the entry's last one right before it, so that offsets inside the
+        # entry range up to 256 S + e - d - 1 (beyond 2^16 for S = 256)
+        for (d, e) in ((1, 255), (100, 200), (244, 250), (255, 0)):
+            g0 = 256 * r.choice([0, 1, 4])
+            first = g0 + d
+            nxt = g0 + 256 * S + e
+            if nxt - first < 512:
+                continue
+            inner = sorted(r.sample(range(first + 1, nxt - 1), 509)) if nxt - first - 2 >= 509 else []
+            if len(inner) != 509:
+                continue
+            ones = [first] + inner + [nxt - 1, nxt]
+            ones += [nxt + 1 + 3 * j for j in range(r.choice([5, 600]))]
+            n = ones[-1] + r.choice([1, 64, 777])
+            v = from_positions(n, ones)
+            eps.append(episode(v, {"t": "clean"}, [[R9, S9]], r, what, src="s9span"))
     return eps
 
 
